@@ -364,3 +364,77 @@ Proof.
   - destruct Kf as (A & _ & _). specialize (A _ Hd). rewrite app_nil_r in A. apply in_rev in A. apply G2, A.
   - exfalso. apply Hr. eapply any_rec_false; [exact ARg|]. apply lookup_ids, Hex.
 Qed.
+
+(* ---- commits: the tree of every enumerated commit was enumerated ---- *)
+Lemma feed_commits_trees r tdone : forall cs cdone evs cd' evs',
+  feed_commits r tdone cs cdone evs = SOk (cd', evs') ->
+  forall c s t ps, In c cs -> lookup r c = Some (Commit s t ps) -> tdone t <> None.
+Proof.
+  induction cs as [|x cs IH]; intros cdone evs cd' evs' H c s t ps Hin Hl; [destruct Hin|].
+  cbn [feed_commits] in H. destruct (cdone x); [discriminate|].
+  destruct (lookup r x) as [[sz|sz es|sz tr prs|sz tg k]|] eqn:El; try discriminate.
+  destruct (tdone tr) eqn:Et; [|discriminate]. destruct (pdepth cdone prs 0); [|discriminate].
+  destruct Hin as [<-|Hin].
+  - rewrite El in Hl. inversion Hl; subst. congruence.
+  - eapply IH; eassumption.
+Qed.
+
+Theorem report_needs_every_commit_tree r enum roots names evs :
+  scan r enum roots names = SOk evs ->
+  forall c s t ps, In c enum -> lookup r c = Some (Commit s t ps) -> In t enum /\ is_tree r t.
+Proof.
+  unfold scan. intros H c s t ps Hin Hl.
+  destruct (phase1 r enum (fun _ => None)) as [[[[[b ev1] ts] cs] gs]|m|m] eqn:P; try discriminate.
+  destruct (phase1_kinds _ _ _ _ _ _ _ _ P) as (T1 & T2 & G1 & G2).
+  destruct (phase1_lists _ _ _ _ _ _ _ _ P) as (A & B & C).
+  destruct (feed_trees _ r b ts empty_tst ev1) as [[tstate ev2]|m|m] eqn:F; try discriminate.
+  destruct (feed_commits r (done _ _ tstate) (rev cs) (fun _ => None) ev2) as [[cd ev3]|m|m] eqn:FC; try discriminate.
+  assert (Hc : In c cs).
+  { clear -P Hin Hl. revert P. generalize (fun _ : N => @None N). revert b ev1 ts cs gs.
+    induction enum as [|o enum IH]; intros b e ts cs gs f P; [destruct Hin|].
+    cbn [phase1] in P. destruct (lookup r o) as [ob|] eqn:E; [|discriminate].
+    destruct ob as [a|a xs|a t' ps'|a t' k].
+    - destruct (phase1 r enum (fupd f o (Some (sat32 a)))) as [[[[[b' e'] ts'] cs'] gs']|m|m] eqn:Q; try discriminate.
+      inversion P; subst. destruct Hin as [->|Hin]; [congruence|]. eapply IH; eassumption.
+    - destruct (phase1 r enum f) as [[[[[b' e'] ts'] cs'] gs']|m|m] eqn:Q; try discriminate.
+      inversion P; subst. destruct Hin as [->|Hin]; [congruence|]. eapply IH; eassumption.
+    - destruct (phase1 r enum f) as [[[[[b' e'] ts'] cs'] gs']|m|m] eqn:Q; try discriminate.
+      inversion P; subst. destruct Hin as [->|Hin]; [left; reflexivity|right; eapply IH; eassumption].
+    - destruct (phase1 r enum f) as [[[[[b' e'] ts'] cs'] gs']|m|m] eqn:Q; try discriminate.
+      inversion P; subst. destruct Hin as [->|Hin]; [congruence|]. eapply IH; eassumption. }
+  assert (Hd : done _ _ tstate t <> None).
+  { eapply (feed_commits_trees r _ (rev cs)); [exact FC| |exact Hl]. apply in_rev. rewrite rev_involutive. exact Hc. }
+  destruct (feed_trees_closure _ r b ts empty_tst ev1 tstate ev2 [] (K_empty tsz bytes) F) as ((Kd & _ & _) & _ & _).
+  specialize (Kd _ Hd). rewrite app_nil_r in Kd. apply in_rev in Kd. apply T2, Kd.
+Qed.
+
+(* all of it in one statement: the listing behind a report is closed under the edges the scan follows *)
+Definition edge_of (r : repo) (o c : oid) : Prop :=
+  match lookup r o with
+  | Some (Commit _ t ps) => c = t \/ In c ps
+  | Some (Tree _ es) => exists e, In e es /\ e_oid e = c /\ (entry_kind (e_mode e) = EkBlob \/ entry_kind (e_mode e) = EkTree)
+  | Some (Tag _ t KTag) => c = t
+  | _ => False
+  end.
+
+Theorem report_listing_closed r enum roots names evs :
+  scan r enum roots names = SOk evs ->
+  forall o c, In o enum -> edge_of r o c -> lookup r c <> None -> In c enum.
+Proof.
+  intros H o c Hin He Hex. unfold edge_of in He.
+  destruct (lookup r o) as [[sz|sz es|sz t ps|sz t k]|] eqn:El; try contradiction.
+  - destruct He as (e & Hein & <- & [Hk|Hk]).
+    + exact (proj1 (report_needs_every_blob r enum roots names evs H o sz es Hin El e Hein Hk)).
+    + exact (proj1 (report_needs_every_subtree r enum roots names evs H o sz es Hin El e Hein Hk Hex)).
+  - destruct He as [->|Hp].
+    + exact (proj1 (report_needs_every_commit_tree r enum roots names evs H o sz t ps Hin El)).
+    + exact (proj1 (report_needs_every_parent r enum roots names evs H o sz t ps Hin El c Hp)).
+  - destruct k; try contradiction. subst c.
+    exact (proj1 (report_needs_every_tag_target r enum roots names evs H o sz t Hin El Hex)).
+Qed.
+
+Theorem census_of_a_closed_listing r enum roots names evs :
+  scan r enum roots names = SOk evs ->
+  Forall (fun o => lookup r o <> None) enum /\
+  (forall o c, In o enum -> edge_of r o c -> lookup r c <> None -> In c enum).
+Proof. intros H. split; [exact (report_needs_every_object r enum roots names evs H)|exact (report_listing_closed r enum roots names evs H)]. Qed.
